@@ -27,7 +27,7 @@ RULE = (
     "query battery - neighbors() for every vertex x 3 directions x 3 unknown modes x {no filter, shared callable, "
     "selective, fresh-but-equal bound method, unhashable callable}, bft/dft_*/bfs/dfs_* from every vertex under 4 "
     "settings, find_links for every ordered pair - must agree item by item (incl. exception type) at every query "
-    "point and at the end.  Also: 63-130 parallel links created at once, and PARTIAL query points (only the first n = 1..48 of 54 distinct questions about one vertex, so that the number of answers held for a vertex when the next mutation arrives takes every value).  Extra phase: histories are split in two, the prefix runs here with caching on, the world is pickled "
+    "point and at the end.  Every fourth mutation between two query points is carried out by another thread (joined at once).  Also: 63-130 parallel links created at once, and PARTIAL query points (only the first n = 1..48 of 54 distinct questions about one vertex, so that the number of answers held for a vertex when the next mutation arrives takes every value).  Extra phase: histories are split in two, the prefix runs here with caching on, the world is pickled "
     "with warm caches and a fresh interpreter continues with the suffix (mutations and queries) with the flag on.  Non-trivial = two consecutive query points whose true answers differ (a "
     "mutation changed some neighbourhood) with the flag on at both, so run B had a warm entry to invalidate; "
     "distinct = distinct case value."
